@@ -590,4 +590,77 @@ theorem filter_noMixin (dirs : List Directive) (h : dirs.any isMixin = false) : 
   rw [List.any_eq_false] at h
   simpa using h x hx
 
+
+/-! ### fuel: more fuel never changes an answer -/
+
+theorem foldE_congr_ok {α β ε : Type} (f g : β → α → Except ε β) (l : List α)
+    (h : ∀ acc x r, x ∈ l → f acc x = .ok r → g acc x = .ok r) :
+    ∀ (a r : β), foldE f a l = .ok r → foldE g a l = .ok r := by
+  induction l with
+  | nil => intro a r hr; simpa [foldE] using hr
+  | cons x xs ih =>
+    intro a r hr
+    simp only [foldE] at hr ⊢
+    cases hf : f a x with
+    | error e => rw [hf] at hr; cases hr
+    | ok a' =>
+      rw [hf] at hr
+      rw [h a x a' (by simp) hf]
+      exact ih (fun acc y r' hy => h acc y r' (by simp [hy])) a' r hr
+
+theorem namesStep_mono (frags : List Fragment) (rec1 rec2 : List Selection → Except GenErr (List String))
+    (h : ∀ sels L, rec1 sels = .ok L → rec2 sels = .ok L) (acc : List String) (s : Selection) (r : List String)
+    (hs : namesStep frags rec1 acc s = .ok r) : namesStep frags rec2 acc s = .ok r := by
+  cases s with
+  | spread name d =>
+    simp only [namesStep] at hs ⊢
+    cases hf : findFragment? frags name with
+    | none => rw [hf] at hs; cases hs
+    | some f =>
+      rw [hf] at hs
+      simp only at hs ⊢
+      cases hr : rec1 f.sel with
+      | error e => rw [hr] at hs; cases hs
+      | ok sub =>
+        rw [hr] at hs
+        rw [h f.sel sub hr]
+        exact hs
+  | field a nm d sid sub =>
+    simp only [namesStep] at hs ⊢
+    by_cases he : sub.isEmpty = true
+    · simpa [he] using hs
+    · have he' : sub.isEmpty = false := by simpa using he
+      simp only [he', Bool.false_eq_true, if_false] at hs ⊢
+      cases hr : rec1 sub with
+      | error e => rw [hr] at hs; cases hs
+      | ok r' =>
+        rw [hr] at hs
+        rw [h sub r' hr]
+        exact hs
+  | inline on d sid sub =>
+    simp only [namesStep] at hs ⊢
+    cases hr : rec1 sub with
+    | error e => rw [hr] at hs; cases hs
+    | ok r' =>
+      rw [hr] at hs
+      rw [h sub r' hr]
+      exact hs
+
+/-- a successful `_get_fragments_names` does not depend on how much fuel was left -/
+theorem fragNames_mono (frags : List Fragment) :
+    ∀ (fuel : Nat) (sels : List Selection) (L : List String), fragNames frags fuel sels = .ok L → fragNames frags (fuel + 1) sels = .ok L := by
+  intro fuel
+  induction fuel with
+  | zero => intro sels L h; simp [fragNames] at h
+  | succ fuel ih =>
+    intro sels L h
+    simp only [fragNames] at h ⊢
+    exact foldE_congr_ok _ _ sels (fun acc x r _ hx => namesStep_mono frags _ _ ih acc x r hx) [] L h
+
+theorem fragNames_mono_le (frags : List Fragment) (fuel fuel' : Nat) (hle : fuel ≤ fuel') (sels : List Selection) (L : List String)
+    (h : fragNames frags fuel sels = .ok L) : fragNames frags fuel' sels = .ok L := by
+  induction hle with
+  | refl => exact h
+  | step _ ih => exact fragNames_mono frags _ sels L ih
+
 end Ariadne.OpTextProofs
